@@ -13,6 +13,7 @@ package roverif
 import (
 	"context"
 	"fmt"
+	"math"
 	"strings"
 
 	"github.com/samber/ro"
@@ -129,6 +130,7 @@ var c09Flows = func() map[string]c09Flow {
 		"LastWithContext":       att(firstLike, fN),
 		"DistinctByWithContext": att(c09idn("id"), fN),
 		"MapErrWithContext":     att(mapErr, fN),
+		"Rounding":              c09idn(""),
 	}
 	return m
 }()
@@ -151,11 +153,11 @@ func c09FlowOf(st StageSpec) c09Flow {
 // stages that only exist in this family
 var c09Local = map[string]bool{
 	"ContextReset": true, "ContextWithTimeout": true, "ContextWithDeadline": true, "ToChannel": true, "FilterWithContext": true, "ScanWithContext": true,
-	"TakeWhileWithContext": true, "FirstWithContext": true, "LastWithContext": true, "DistinctByWithContext": true, "MapErrWithContext": true,
+	"TakeWhileWithContext": true, "FirstWithContext": true, "LastWithContext": true, "DistinctByWithContext": true, "MapErrWithContext": true, "Rounding": true,
 }
 
 var c09LocalNames = []string{"ContextReset", "ContextWithTimeout", "ContextWithDeadline", "ToChannel", "FilterWithContext", "ScanWithContext",
-	"TakeWhileWithContext", "FirstWithContext", "LastWithContext", "DistinctByWithContext", "MapErrWithContext"}
+	"TakeWhileWithContext", "FirstWithContext", "LastWithContext", "DistinctByWithContext", "MapErrWithContext", "Rounding"}
 
 var c09CtxStages = []string{"ContextWithValue", "ContextMap", "MapWithContext", "MapIWithContext"}
 
@@ -308,6 +310,10 @@ func (r *c09Run) build(idx int, st StageSpec) func(ro.Observable[int]) ro.Observ
 	mark := func(ctx context.Context) context.Context { return context.WithValue(ctx, key, st.Op) }
 	switch st.Op {
 	case "ContextWithValue":
+		if pi(st.P, 0, 0)%2 == 1 {
+			// any value may be attached to a context, also one that cannot be compared with ==
+			return ro.ContextWithValue[int](key, []string{st.Op})
+		}
 		return ro.ContextWithValue[int](key, st.Op)
 	case "ContextMap":
 		return ro.ContextMap[int](func(ctx context.Context) context.Context { e.Yield(); return mark(ctx) })
@@ -362,6 +368,27 @@ func (r *c09Run) build(idx int, st StageSpec) func(ro.Observable[int]) ro.Observ
 				})(src)
 			})
 		}
+	case "Rounding":
+		// the rounding operators over floats of both signs, with ordinary, zero and extreme precisions
+		// (the latter take the arbitrary-precision paths and saturate to an infinity)
+		ops := []func(ro.Observable[float64]) ro.Observable[float64]{
+			ro.Floor(), ro.Ceil(), ro.FloorWithPrecision(2), ro.CeilWithPrecision(-2), ro.FloorWithPrecision(-400), ro.CeilWithPrecision(-400),
+			ro.FloorWithPrecision(-309), ro.CeilWithPrecision(-9000), ro.FloorWithPrecision(400), ro.Round(), ro.Trunc(), ro.Abs(),
+		}
+		op := ops[pi(st.P, 0, 0)%len(ops)]
+		in := ro.Map(func(x int) float64 { return float64(x-12) * 1.25 })
+		out := ro.Map(func(f float64) int {
+			switch {
+			case math.IsInf(f, 1):
+				return 9999
+			case math.IsInf(f, -1):
+				return -9999
+			case math.IsNaN(f):
+				return 0
+			}
+			return int(f)
+		})
+		return func(src ro.Observable[int]) ro.Observable[int] { return out(op(in(src))) }
 	case "ContextReset":
 		return ro.ContextReset[int](context.WithValue(context.Background(), kC09Reset, "reset"))
 	case "ContextWithTimeout":
@@ -460,13 +487,20 @@ func init() {
 				switch x := g.Intn(10); {
 				case x < 2: // marker placement: a context operator / context-aware callback mid-pipeline
 					addStage(g, sc, c09CtxStages[g.Intn(len(c09CtxStages))], nv, "sync")
+					if last := &sc.Stages[len(sc.Stages)-1]; last.Op == "ContextWithValue" {
+						last.P = []int{g.Intn(2)} // 1: the attached value is a slice
+					}
 				case x < 3:
 					name := c09LocalNames[g.Intn(len(c09LocalNames))]
 					sc.Stages = append(sc.Stages, StageSpec{Op: name, P: []int{g.Intn(nv + 2)}})
+					if name == "Rounding" {
+						sc.Stages[len(sc.Stages)-1].P = []int{g.Intn(12)}
+					}
 				default:
 					genChain(g, sc, 1, nv, g.Pick("sync", "async"), c09StageOK)
 				}
 			}
+			sc.SetInt("ctxtype", g.Intn(2))
 			for i := range sc.Stages {
 				if sc.Stages[i].Op == "RetryN" && pi(sc.Stages[i].P, 0, 1) == 0 {
 					sc.Stages[i].P[0] = 2 // 0 = retry for ever: a failing source would only spin to the step cap
@@ -559,6 +593,11 @@ func runC09Chain(e *Env) {
 		func(ctx context.Context) { r.rec(n, 'C', 0, nil, ctx); e.Yield() },
 	)
 	subCtx := context.WithValue(context.Background(), kC09Sub, "sub")
+	if sc.Int("ctxtype", 0) == 1 {
+		// the same values, carried by a context of the caller's own type: the concrete type of the
+		// subscription context then differs from the derived contexts that travel with the items
+		subCtx = c09OwnCtx{context.Background()}
+	}
 	h := e.Subscribe(cur, observer, subCtx)
 	e.SettleFor(80 * Unit)
 	if e.K.Capped() {
@@ -708,6 +747,33 @@ func (r *c09Run) judge() {
 				e.Violate("C09", "nil-context:"+sc.Stages[owner].Op, fmt.Sprintf("%s subscribed its auxiliary source with a nil context ([%s])", sc.Stages[owner].Op, pipeline))
 			} else if ctx.Value(kC09Sub) != "sub" {
 				e.Violate("C09", "marker-lost:"+sc.Stages[owner].Op+":S", fmt.Sprintf("%s subscribed its auxiliary source with %s, not derived from the subscription context ([%s])", sc.Stages[owner].Op, c09Describe(ctx), pipeline))
+			}
+		}
+	}
+	// ---- 2b: a context operator forwards every notification it receives, with the value attached: when the
+	// operator's own code failed (a run-time error reported through OnUnhandledError, nothing here injects
+	// panics) and notifications that entered it never came out, the attached value never became visible
+	for i, st := range sc.Stages {
+		if st.Op != "ContextWithValue" && st.Op != "ContextMap" {
+			continue
+		}
+		in, out := 0, 0
+		for j := range r.log {
+			if ev := &r.log[j]; ev.K != 'S' {
+				if ev.Pos == i {
+					in++
+				} else if ev.Pos == i+1 {
+					out++
+				}
+			}
+		}
+		if out >= in {
+			continue
+		}
+		for _, u := range e.Unhandled {
+			if strings.Contains(u, "runtime error") {
+				e.Violate("C09", "marker-not-delivered:"+st.Op, fmt.Sprintf("%s (stage %d of [%s]) received %d notifications and forwarded %d: its own code failed with %q, the value it attaches never became visible downstream", st.Op, i, pipeline, in, out, u))
+				break
 			}
 		}
 	}
@@ -973,3 +1039,15 @@ func runC09Subjects(e *Env) {
 	}
 	e.Probe("c09.subjects-judged")
 }
+
+// c09OwnCtx is a caller-defined context type carrying the subscription marker.
+type c09OwnCtx struct{ context.Context }
+
+func (c c09OwnCtx) Value(key any) any {
+	if key == kC09Sub {
+		return "sub"
+	}
+	return c.Context.Value(key)
+}
+
+func (c c09OwnCtx) String() string { return "c09OwnCtx(sub)" }
